@@ -153,7 +153,7 @@ func (pConn *PFCPConn) handleSessionEstablishmentRequest(msg message.Message) (m
 	// FIXME: since PacketForwardingRules doesn't store pointers,
 	//  we must also mark session QERs in addQERs.
 	//  We need a kind of refactoring to clean it up.
-	session.MarkSessionQer(addQERs)
+	session.labelLikeStored(addQERs)
 
 	// session.PacketForwardingRules stores all PFCP rules that has been installed so far,
 	// while 'updated' stores only the PFCP rules that have been provided in this particular message.
@@ -358,7 +358,7 @@ func (pConn *PFCPConn) handleSessionModificationRequest(msg message.Message) (me
 	// FIXME: since PacketForwardingRules doesn't store pointers,
 	//  we must also mark session QERs in addQERs.
 	//  We need a kind of refactoring to clean it up.
-	session.MarkSessionQer(addQERs)
+	session.labelLikeStored(addQERs)
 
 	updated := PacketForwardingRules{
 		pdrs: addPDRs,
